@@ -388,7 +388,7 @@ pub fn run(eng: &Engine) {
     eng.set_rule("valid frames (three sources) and synthesized frames with one over-long compressed block (regenerated size around and far above 128 KiB, built from a few literals plus max-length matches, or from 20-bit RLE/raw literals), each driven by decode_blocks (All/UptoBlocks/UptoBytes, with or without draining), StreamingDecoder reads, decode_all, decode_from_to; non-trivial = a block regenerating > 64 KiB, or valid content exceeding window + 128 KiB; distinct by (frame, drive) hash");
     eng.assume("held data observed through the hook FrameDecoder::verif_buffer_len and the per-thread counting allocator");
     eng.assume("over-long blocks capped at 2000 sequences so a missing guard cannot exhaust the sandbox");
-    let n = eng.tier.pick(3_000, 80_000);
+    let n = eng.tier.pick(12_000, 200_000);
     let tier = eng.tier;
     eng.run_stage("frames", n, || case_strategy(tier), check);
 }
